@@ -141,22 +141,118 @@ theorem handleSourceBridge_attach (late : Late) :
     (handleSourceBridge late).attach = .source ∨ (handleSourceBridge late).attach = .none := by
   cases late <;> simp [handleSourceBridge]
 
-/-- With nothing at arrival the dispatcher yields: a refusal, the source-side outcome, or the target-side one. -/
+/-- With nothing at arrival the dispatcher yields: a refusal, the source-side outcome, the target-side one, or —
+`.early` — the target of the bridge registered between its two look-ups. -/
 theorem dyn_none_cases (w : World) (id : ConnIdent) (req : Req) (late : Late) :
     openTunnelDyn w id req .none late = refuse ∨
     openTunnelDyn w id req .none late = handleSourceBridge late ∨
-    openTunnelDyn w id req .none late = handleTargetBridge w req late := by
+    openTunnelDyn w id req .none late = handleTargetBridge w req late ∨
+    (∃ m, late = .early m ∧ m = req.MappingID ∧ openTunnelDyn w id req .none late = ⟨.ok, .target, .switch⟩) := by
   unfold openTunnelDyn
   by_cases hw : req.wellFormed = true
   · cases hf : findControlConnection id with
     | none => left; simp [hw]
     | some cc =>
       by_cases ha : handleTunnelOpenAuth w cc.clientID req = true
-      · by_cases hs : isSourceClient w id cc req = true
-        · right; left; simp [hw, ha, hs]
-        · right; right; simp [hw, ha, hs]
+      · cases late with
+        | early m =>
+          by_cases hm : m = req.MappingID
+          · right; right; right; exact ⟨m, rfl, hm, by simp [hw, ha, hm]⟩
+          · left; simp [hw, ha, hm]
+        | none =>
+          by_cases hs : isSourceClient w id cc req = true
+          · right; left; simp [hw, ha, hs]
+          · right; right; left; simp [hw, ha, hs]
+        | noRouting =>
+          by_cases hs : isSourceClient w id cc req = true
+          · right; left; simp [hw, ha, hs]
+          · right; right; left; simp [hw, ha, hs]
+        | route m n b =>
+          by_cases hs : isSourceClient w id cc req = true
+          · right; left; simp [hw, ha, hs]
+          · right; right; left; simp [hw, ha, hs]
+        | window m =>
+          by_cases hs : isSourceClient w id cc req = true
+          · right; left; simp [hw, ha, hs]
+          · right; right; left; simp [hw, ha, hs]
       · left; simp [hw, ha]
   · left; simp [hw]
+
+theorem handleTargetBridge_acked (w : World) (req : Req) (late : Late)
+    (h : (handleTargetBridge w req late).attach ≠ .none) : (handleTargetBridge w req late).ack = .ok := by
+  cases late with
+  | none => simp [handleTargetBridge]
+  | noRouting => simp [handleTargetBridge]
+  | early m => simp [handleTargetBridge]
+  | window m => simp only [handleTargetBridge]; split <;> rfl
+  | route m n b =>
+    simp only [handleTargetBridge, processCrossNodeForwardLate, handleLocalBridgeWait]
+    split
+    · rfl
+    · split
+      · split <;> rfl
+      · split <;> rfl
+
+theorem handleSourceBridge_acked (late : Late) : (handleSourceBridge late).ack = .ok := by
+  cases late <;> rfl
+
+theorem handleExistingBridge_acked (w : World) (id : ConnIdent) (req : Req) : (handleExistingBridge w id req).ack = .ok := rfl
+
+theorem processCrossNodeForward_acked (w : World) (node : String)
+    (h : (processCrossNodeForward w node).attach ≠ .none) : (processCrossNodeForward w node).ack = .ok := by
+  unfold processCrossNodeForward at h ⊢
+  split
+  · simp_all
+  · split <;> simp_all
+
+theorem dyn_bridge_cases (w : World) (id : ConnIdent) (req : Req) (m : String) (sv : Bool) (late : Late) :
+    openTunnelDyn w id req (.bridge m sv) late = refuse ∨
+    openTunnelDyn w id req (.bridge m sv) late = handleExistingBridge w id req := by
+  unfold openTunnelDyn
+  by_cases hw : req.wellFormed = true
+  · cases hf : findControlConnection id with
+    | none => left; simp [hw]
+    | some cc =>
+      by_cases ha : handleTunnelOpenAuth w cc.clientID req = true
+      · by_cases hm : m = req.MappingID
+        · right; simp [hw, ha, hm]
+        · left; simp [hw, ha, hm]
+      · left; simp [hw, ha]
+  · left; simp [hw]
+
+theorem dyn_remote_cases (w : World) (id : ConnIdent) (req : Req) (m n : String) (late : Late) :
+    openTunnelDyn w id req (.remote m n) late = refuse ∨
+    openTunnelDyn w id req (.remote m n) late = processCrossNodeForward w n := by
+  unfold openTunnelDyn
+  by_cases hw : req.wellFormed = true
+  · cases hf : findControlConnection id with
+    | none => left; simp [hw]
+    | some cc =>
+      by_cases ha : handleTunnelOpenAuth w cc.clientID req = true
+      · by_cases hm : m = req.MappingID
+        · right; simp [hw, ha, hm]
+        · left; simp [hw, ha, hm]
+      · left; simp [hw, ha]
+  · left; simp [hw]
+
+/-- Whatever the dispatcher attaches, it has acknowledged with success. -/
+theorem attach_acked (w : World) (id : ConnIdent) (req : Req) (ts : TunnelState) (late : Late)
+    (h : (openTunnelDyn w id req ts late).attach ≠ .none) : (openTunnelDyn w id req ts late).ack = .ok := by
+  cases ts with
+  | none =>
+    rcases dyn_none_cases w id req late with e | e | e | ⟨m, _, _, e⟩
+    · rw [e] at h; exact absurd rfl h
+    · rw [e]; exact handleSourceBridge_acked late
+    · rw [e] at h ⊢; exact handleTargetBridge_acked w req late h
+    · rw [e]
+  | bridge m sv =>
+    rcases dyn_bridge_cases w id req m sv late with e | e
+    · rw [e] at h; exact absurd rfl h
+    · rw [e]; rfl
+  | remote m n =>
+    rcases dyn_remote_cases w id req m n late with e | e
+    · rw [e] at h; exact absurd rfl h
+    · rw [e] at h ⊢; exact processCrossNodeForward_acked w n h
 
 /-- Passing the checks means being entitled in the sense of the property. -/
 theorem entitled_of_passed {w : World} {id : ConnIdent} {req : Req} {ts : TunnelState} {cc : ClientConn}
